@@ -303,6 +303,11 @@ def one(run, w, m, cls):
 class Injector(object):
     """makes the k-th datastore call of the next request raise, before delegating"""
 
+    # what a failing datastore may raise: any exception class (a dict-backed block raises KeyError, a list-backed one IndexError,
+    # a remote one OSError / TimeoutError ...); the property demands exception 04 whatever the class
+    CLASSES = [RuntimeError, KeyError, IndexError, ValueError, TypeError, OSError, TimeoutError, AttributeError, ZeroDivisionError, LookupError]
+    exc_class = RuntimeError
+
     def __init__(self, blocks):
         self.armed = None
         self.calls = 0
@@ -323,7 +328,7 @@ class Injector(object):
                 if self.calls == self.armed:
                     self.calls += 1
                     self.fired = True
-                    raise RuntimeError('injected datastore failure in %s' % name)
+                    raise self.exc_class('injected datastore failure in %s' % name)
                 self.calls += 1
             return fn(*a, **k)
         return call
@@ -339,15 +344,16 @@ def injection(run, r, uniq):
         layout = small_layout(r, i)
         w = World(layout)
         inj = Injector(w.blocks[w.uid])
+        inj.exc_class = Injector.CLASSES[(i // len(FRONTS)) % len(Injector.CLASSES)]
         front, framing = FRONTS[i % len(FRONTS)]
         hist = gen_history(r, layout, 5, uniq)
         m = hist[-1]
         if w.tgt.copy().execute(m)['fc'] >= 0x80:
             continue                     # the injected request must be a valid one
         k = r.randrange(SAFE_POINTS[m['fc']])
-        case = {'kind': 'inject', 'layout': layout, 'history': hist, 'front': front, 'framing': framing, 'k': k}
+        case = {'kind': 'inject', 'layout': layout, 'history': hist, 'front': front, 'framing': framing, 'k': k, 'exc': inj.exc_class.__name__}
         ok = inject_case(run, w, inj, hist, front, framing, k, case)
-        run.case(h64(repr(case)), True, sample={'front': front, 'framing': framing, 'request': m, 'failing_call': k, 'verdict': 'agrees' if ok else 'differs'},
+        run.case(h64(repr(case)), True, sample={'front': front, 'framing': framing, 'request': m, 'failing_call': k, 'raises': inj.exc_class.__name__, 'verdict': 'agrees' if ok else 'differs'},
                  sample_class=('inject', front))
 
 
@@ -415,6 +421,7 @@ def replay(run, case):
     if case['kind'] == 'inject':
         w = World(lay)
         inj = Injector(w.blocks[w.uid])
+        inj.exc_class = {c.__name__: c for c in Injector.CLASSES}.get(case.get('exc', 'RuntimeError'), RuntimeError)
         print(inject_case(run, w, inj, case['history'], case['front'], case['framing'], case['k'], case))
     else:
         w = World(lay)
